@@ -246,7 +246,9 @@ impl<VM: VMBinding> crate::policy::gc_work::PolicyTraceObject<VM> for ImmixSpace
             } else {
                 self.trace_object_without_moving(queue, object)
             }
-        } else if KIND == TRACE_KIND_FAST {
+        } else if KIND == TRACE_KIND_FAST || KIND == DEFAULT_TRACE {
+            // With the default trace, this is the non-moving space of a plan that does not use
+            // Immix as its main policy (see `may_move_objects` below).
             self.trace_object_without_moving(queue, object)
         } else {
             unreachable!()
